@@ -121,7 +121,7 @@ def c07(ctx):
         try:
             part = ctx.path("search_basic_%d.ndjson" % skip)
             summ = harness(["search-basic", pp, part, "--depths", "0,1,2,3" if quick else "0,1,2,3,4", "--pools", "1,2,4,16",
-                            "--max-men-deep", 6 if quick else 12, "--skip", skip, "--trace-log"], timeout=7200)
+                            "--max-men-deep", 5 if quick else 12, "--skip", skip, "--trace-log"], timeout=7200)
             traces.append(part)
         except HarnessCrash as e:
             crashes += 1
@@ -275,14 +275,14 @@ def c08(ctx):
     quick = ctx.tier == "quick"
     mc_search(ctx)
     if quick:
-        plan = [(3, 36, 10, 6, 4, "d3", None), (4, 10, 4, 4, 3, "d4", None), (2, 10, 10, 8, 3, "d2seq", None),
+        plan = [(3, 28, 10, 6, 4, "d3", None), (4, 8, 4, 4, 3, "d4", None), (2, 10, 10, 8, 3, "d2seq", None),
                 # lone king against a few men: stalemates and mates within the horizon (leaf verdict scoring)
                 (2, 40, 6, 3, 2, "bare2", "bare"), (3, 30, 6, 3, 2, "bare3", "bare"),
                 # roots built backwards from stalemates / mates: the terminal position sits exactly on the horizon
                 (1, 60, 0, 0, 2, "term1", "terminal"), (2, 60, 0, 0, 2, "term2", "terminal"), (3, 20, 0, 0, 2, "term3", "terminal"),
                 # K+Q / K+R against the lone king, defender to move, depth 6: forced mates of different lengths
                 # inside the horizon (quicker mate preferred, cut-offs at mate scores)
-                (6, 6, 0, 0, 1, "kxk6", "kxk"),
+                (6, 5, 0, 0, 1, "kxk6", "kxk"),
                 # pawn storms played on with ONE context: positions that differ only in the en-passant right
                 (3, 8, 14, 8, 1, "storm3seq", "storm")]
     else:
@@ -295,7 +295,7 @@ def c08(ctx):
     # the cache accesses of games played on with one context (one worker: program order), validated by Trace_Search:
     # a hit must return an entry stored for the SAME position with the same remaining depth, side and window
     st = ctx.path("seqtrace.ndjson")
-    ssum = harness(["search-seqtrace", st, "--seed", ctx.seed, "--sequences", 2 if quick else 10, "--seq-len", 7, "--depth", 3], timeout=3600)
+    ssum = harness(["search-seqtrace", st, "--seed", ctx.seed, "--sequences", 2 if quick else 10, "--seq-len", 6 if quick else 7, "--depth", 3], timeout=3600)
     flat = ctx.path("seqtrace_flat.ndjson")
     n, runs = flatten_schedules(st, flat)
     if n:
@@ -394,7 +394,7 @@ def c09(ctx):
     with open(np_, "w") as f:
         json.dump(NATIVE, f)
     nout = ctx.path("native.ndjson")
-    nsumm = harness(["search-native", np_, nout, "--pools", "1,4,16,48", "--reps", 2 if quick else 6, "--watchdog-secs", 90, "--trace-log"], timeout=7200)
+    nsumm = harness(["search-native", np_, nout, "--pools", "1,4,16" if quick else "1,4,16,48", "--reps", 2 if quick else 6, "--watchdog-secs", 90, "--trace-log"], timeout=7200)
     results.append((99, nout, nsumm))
     diverged = 0
     positions = 0
